@@ -119,6 +119,11 @@ func genWorld(t *rapid.T, o WorldOpts) *Desc {
 			}
 		}
 	}
+	// ... and a second event node may carry the very name of a sub-handler (two pads of one model behind one adapter): the
+	// same configuration applies to both nodes, their keys are distinct hardware keys with equal codes
+	if o.Twins && rapid.IntRange(0, 4).Draw(t, "twinNode") == 0 {
+		d.TwinNodes = []string{keySub[rapid.IntRange(0, nKeys-1).Draw(t, "twinNodeOf")]}
+	}
 	for mi := 0; mi < nMap; mi++ {
 		m := MappingDef{Name: []string{"Piano", "Chromatic", "Drums"}[mi]}
 		for i, code := range noteCodes {
@@ -364,6 +369,10 @@ func axisKey(a AxisDef) string { return fmt.Sprintf("%s/%d", a.Sub, a.Code) }
 // (evdev key codes end at 0x2ff). Steps always carry the real (sub-handler, code).
 const twinBit = 0x8000
 
+// nodeBit marks the handle of a key on the second event node that carries the same sub-handler name (same code, same
+// mapping entry, another hardware key).
+const nodeBit = 0x4000
+
 func newHistState(d *Desc) *histState {
 	h := &histState{d: d, axisOut: map[string]bool{}, down: map[uint16]bool{}, sub: map[uint16]string{}, actions: map[uint16]string{}, heldAct: map[string]bool{}}
 	seen := map[uint16]bool{}
@@ -398,6 +407,14 @@ func newHistState(d *Desc) *histState {
 		if !seen[c] {
 			seen[c] = true
 			h.spare = append(h.spare, c)
+		}
+	}
+	for _, tn := range d.TwinNodes {
+		for _, k := range append([]uint16{}, h.noteKeys...) {
+			if k&twinBit == 0 && h.sub[k] == tn {
+				h.noteKeys = append(h.noteKeys, k|nodeBit)
+				h.sub[k|nodeBit] = tn
+			}
 		}
 	}
 	sort.Slice(h.noteKeys, func(i, j int) bool { return h.noteKeys[i] < h.noteKeys[j] })
@@ -470,7 +487,7 @@ func (h *histState) toggle(code uint16) {
 }
 
 func (h *histState) emitKey(code uint16, val int32) {
-	h.steps = append(h.steps, Step{T: "key", Sub: h.sub[code], Code: code &^ twinBit, Val: val})
+	h.steps = append(h.steps, Step{T: "key", Sub: h.sub[code], Node: int(code & nodeBit / nodeBit), Code: code &^ (twinBit | nodeBit), Val: val})
 	if val == 1 {
 		h.down[code] = true
 		if a, ok := h.actions[code]; ok {
@@ -549,7 +566,7 @@ func genHistory(t *rapid.T, d *Desc, o HistOpts) []Step {
 			}
 		case kind < 90 && o.Repeats && len(h.noteKeys) > 0:
 			c := h.noteKeys[rapid.IntRange(0, len(h.noteKeys)-1).Draw(t, "key")]
-			h.steps = append(h.steps, Step{T: "rep", Sub: h.sub[c], Code: c &^ twinBit, Val: 2})
+			h.steps = append(h.steps, Step{T: "rep", Sub: h.sub[c], Node: int(c & nodeBit / nodeBit), Code: c &^ (twinBit | nodeBit), Val: 2})
 		case kind < 93 && o.UnmappedKey && len(h.spare) > 0:
 			h.toggle(h.spare[rapid.IntRange(0, len(h.spare)-1).Draw(t, "spare")])
 		case kind < 94 && len(h.down)+len(h.axisOut) > 0 && rapid.IntRange(0, 2).Draw(t, "settle") == 0:
